@@ -135,10 +135,18 @@ func c19State(name string) *enga.World {
 	w, err := enga.NewWorld(c08Cfg())
 	must(err)
 	w.Run(enga.ABlock{})
+	if name == "elected" {
+		// after an election the proposer changed and a voter registration is pending
+		for _, b := range []enga.ABlock{{Events: []enga.Event{{Kind: "req:addvoter"}, {Kind: "req:withdraw", N: 1}}}, {Dt: 7, Events: []enga.Event{{Kind: "req:cancel"}}}} {
+			if rr := w.Run(b); rr.Err != nil {
+				panic(rr.Err)
+			}
+		}
+	}
 	if name == "busy" {
 		for _, b := range []enga.ABlock{
-			{Events: []enga.Event{{Kind: "tx:hashes", N: 2}, {Kind: "req:withdraw", N: 3}, {Kind: "req:addvoter"}}},
-			{Events: []enga.Event{{Kind: "tx:deposits", N: 2}, {Kind: "tx:process", N: 2}, {Kind: "req:cancel"}}},
+			{Events: []enga.Event{{Kind: "tx:hashes", N: 2}, {Kind: "req:withdraw", N: 3}, {Kind: "req:withdraw", N: 1, Var: "bad-address"}, {Kind: "req:addvoter"}, {Kind: "req:claim", N: 2}}},
+			{Events: []enga.Event{{Kind: "tx:deposits", N: 2}, {Kind: "tx:process", N: 2}, {Kind: "req:cancel"}, {Kind: "req:claim", N: 2}, {Kind: "req:withdraw", N: 1, Var: "bad-address"}}},
 		} {
 			if rr := w.Run(b); rr.Err != nil {
 				panic(rr.Err)
@@ -163,6 +171,9 @@ func c19Cases(w *enga.World, state string, thorough bool) []*c19Case {
 	var cases []*c19Case
 	key := relayerKey(w)
 	depth := 2
+	if thorough {
+		depth = 3
+	}
 	events := []enga.Event{{Kind: "tx:hashes", N: 2}, {Kind: "tx:deposits", N: 2}, {Kind: "tx:newpubkey"}, {Kind: "tx:process", N: 1}, {Kind: "tx:replace"},
 		{Kind: "tx:finalize"}, {Kind: "tx:approve"}, {Kind: "tx:consolidation"}, {Kind: "tx:newvoter"}, {Kind: "tx:accept"}}
 	for _, e := range events {
@@ -174,8 +185,21 @@ func c19Cases(w *enga.World, state string, thorough bool) []*c19Case {
 		must(err)
 		url := sdk.MsgTypeURL(msg)
 		cases = append(cases, &c19Case{State: state, Kind: "relayer-tx", Desc: url + " well-formed", tx: c19SignRaw(w, key, 0, url, bz, 0)})
-		for _, m := range mutateWire(bz, depth, "") {
+		muts := mutateWire(bz, depth, "")
+		for _, m := range muts {
 			cases = append(cases, &c19Case{State: state, Kind: "relayer-tx", Desc: url + " " + m.name, tx: c19SignRaw(w, key, 0, url, m.out, 0)})
+		}
+		if thorough {
+			// deviation bound 2: a second single mutation applied to every singly mutated top-level encoding
+			top := mutateWire(bz, 0, "")
+			for i, m1 := range top {
+				for j, m2 := range mutateWire(m1.out, 0, "") {
+					if (i+j)%3 != 0 {
+						continue // deterministic third of the pairs keeps the run inside its budget
+					}
+					cases = append(cases, &c19Case{State: state, Kind: "relayer-tx", Desc: url + " " + m1.name + " & " + m2.name, tx: c19SignRaw(w, key, 0, url, m2.out, 0)})
+				}
+			}
 		}
 	}
 	cases = append(cases, c19BitmapCases(w, state, key)...)
@@ -201,6 +225,40 @@ func c19Cases(w *enga.World, state string, thorough bool) []*c19Case {
 	h := uint64(w.N.Height + 1)
 	for _, m := range mutateWire(ebz, 2, "") {
 		cases = append(cases, &c19Case{State: state, Kind: "proposal", Desc: "MsgNewEthBlock " + m.name, tx: c19SignRaw(w, ethKey, 0, ethBlockURL, m.out, h)})
+	}
+	// system-transaction lists that disagree with what is due, with a consistent count byte
+	nDue := int(payload.ExtraData[0])
+	if nDue > 0 {
+		type cut struct {
+			name string
+			keep func(i int) bool
+		}
+		ctx0, _ := w.N.Ctx().CacheContext()
+		btcDue, err := w.N.App.BitcoinKeeper.DequeueBitcoinModuleTx(ctx0)
+		must(err)
+		nb := len(btcDue)
+		for _, c := range []cut{
+			{"all-omitted", func(i int) bool { return false }},
+			{"first-omitted", func(i int) bool { return i != 0 }},
+			{"last-omitted", func(i int) bool { return i != nDue-1 }},
+			{"locking-part-omitted", func(i int) bool { return i < nb }},
+			{"bridge-part-omitted", func(i int) bool { return i >= nb }},
+			{"only-first", func(i int) bool { return i == 0 }},
+		} {
+			c := c
+			tx, _, err := w.N.BuildEthBlockTx(sim.EthBlockOpts{Rehash: true, MutatePayload: func(p *goatmodtypes.ExecutionPayload) {
+				var kept [][]byte
+				for i := 0; i < nDue; i++ {
+					if c.keep(i) {
+						kept = append(kept, p.Transactions[i])
+					}
+				}
+				p.Transactions = append(kept, p.Transactions[nDue:]...)
+				p.ExtraData[0] = byte(len(kept))
+			}})
+			must(err)
+			cases = append(cases, &c19Case{State: state, Kind: "proposal", Desc: fmt.Sprintf("system-txs %s (%d due, %d bridge)", c.name, nDue, nb), tx: tx})
+		}
 	}
 	// execution-layer request lists from a small grammar
 	reqs := map[string][][]byte{
@@ -384,7 +442,11 @@ func runC19(r *mc.Run) {
 	r.Assumptions = []string{"a proposal rejected by ProcessProposal is not forced into FinalizeBlock (honest validators never finalise it; engine verdicts at finalisation are C09's subject)", "account sequences are not part of 'state exactly as it was'"}
 	self, err := os.Executable()
 	must(err)
-	for _, state := range []string{"fresh", "busy"} {
+	states := []string{"fresh", "busy"}
+	if r.Thorough() {
+		states = append(states, "elected")
+	}
+	for _, state := range states {
 		w := c19State(state)
 		cases := c19Cases(w, state, r.Thorough())
 		w.Close()
